@@ -260,7 +260,10 @@ Definition step (s : st) (o : op) : st * Z * list ev :=
   | Contains ptr => (s, if do_contains s ptr then 1 else 0, [])
   | Release => do_release s
   | MoveAssign => (s, 0, [])
-  | MoveCtor => (set_up s 0, 0, [])    (* operator= swaps everything except _upstream *)
+  (* operator= swaps every member; whether _upstream is among them is read off the source
+     (Gen.move_swaps_upstream = 1 iff `std::swap(_upstream, other._upstream)` is present); a fresh
+     target object has the default upstream 0 *)
+  | MoveCtor => (set_up s (if Z.eqb move_swaps_upstream 1 then up s else 0), 0, [])
   end.
 
 Fixpoint run (s : st) (ops : list op) : st * list (Z * list ev) :=
